@@ -9,7 +9,7 @@ import numpy as np
 from . import env
 
 WAVES = ["haar", "db2", "db3", "db4", "sym4", "coif1", "bior1.3", "bior2.4",
-         "bior3.1", "rbio1.3", "db7"]
+         "bior3.1", "rbio1.3", "db7", "db12", "sym8", "coif3", "bior4.4", "rbio2.4"]
 WAVES_SIMPLE = ["haar", "db2", "db3", "bior2.4"]
 DWT_MODES = ["zero", "symmetric", "reflect", "periodization", "periodic"]
 BIORTS = ["antonini", "legall", "near_sym_a", "near_sym_b"]
@@ -57,14 +57,14 @@ def gen_params(family, rng, simple=False):
             w = {"kind": "tuple2", "name": w["name"]}
         p = {"wave": w, "mode": _pick(rng, DWT_MODES)}
         if family == "dwt1f":
-            p["J"] = rng.randrange(1, 4)
+            p["J"] = rng.randrange(1, 4) if rng.random() < 0.95 else rng.randrange(4, 7)
         return p
     if family in ("dwt2f", "dwt2i", "swt"):
         p = {"wave": gen_wave(rng, simple), "mode": _pick(rng, DWT_MODES)}
         if family == "swt":
             p["mode"] = _pick(rng, ["periodization", "periodic", "zero", "symmetric"])
         if family != "dwt2i":
-            p["J"] = rng.randrange(1, 4)
+            p["J"] = rng.randrange(1, 4) if rng.random() < 0.95 else rng.randrange(4, 6)
         return p
     if family in ("dtf", "dti"):
         p = {"biort": _pick(rng, BIORTS), "qshift": _pick(rng, QSHIFTS)}
